@@ -111,7 +111,7 @@ pub fn normalize(raw: &Case, opts: &NormOpts) -> Case {
         // the pool maximum in force during this phase decides which pool-0 scope rules apply
         for act in ph.root.iter() {
             match act {
-                RootAct::SetPool { n } | RootAct::SetPoolPublic { n } => pool_now = *n,
+                RootAct::SetPool { n } | RootAct::SetPoolPublic { n, .. } => pool_now = *n,
                 _ => {}
             }
         }
